@@ -251,9 +251,17 @@ def tlc_trace(module, cfg, trace_path, env=None, timeout=1800, max_rejections=8,
             if "Model checking completed. No error has been found." in out:
                 break
             m = _UNMATCHED.search(out)
-            if not m:
+            k = None
+            if m:
+                k = int(m.group(1))                     # 1-based index within this part
+            elif "The error occurred when TLC was evaluating" in out or "Attempted to" in out:
+                # the step for the event at position l could not even be evaluated (an operator of the specification is undefined on
+                # what was observed): the event is not a step of the specification -- reported like an unmatched event
+                ls = re.findall(r"^/\\ l = (\d+)", out, re.M)
+                if ls:
+                    k = int(ls[-1])
+            if k is None:
                 raise ToolError("trace validation %s failed without an UNMATCHED report:\n%s" % (module, tail(out, 60)))
-            k = int(m.group(1))                         # 1-based index within this part
             abs_ix = offset + k - len(prefix)           # 1-based index in the whole trace
             if abs_ix < 1 or abs_ix > n:
                 raise ToolError("trace validation %s rejected a synthetic event:\n%s" % (module, tail(out, 40)))
